@@ -17,6 +17,11 @@ spec->code, harness area "num"):
                    with scalar or complex leading part
   Interp.tla       piecewise constant / linear / Hermite / Akima / Fritsch-Butland / natural / clamped /
                    not-a-knot interpolants on <= 6 integer knots by rational elimination
+  InterpHist.tla   histories of 2-3 Fit calls on ONE predictor value (growing, equal, shrinking knot counts; nested,
+                   overlapping, disjoint ranges; failing calls in between): the state of the object is the data of its
+                   last good Fit; after every good step the answers are Interp.tla's for that step's data (R2), and at
+                   points outside the knots, where the documentation fixes no value, the recorded answers of the refitted
+                   object and of fresh objects must be one function of (data, point) (R3, InterpHistTrace.tla)
   GaussHermite.tla Gauss-Hermite moments as rational multiples of sqrt(pi) (n = 1..20 every k <= 2n-1, tabulated
                    n <= 200 and the asymptotic branch n > 200), structure clauses, the first inexact moment k = 2n,
                    the default rule of quad.Fixed on (semi-)infinite ranges (rational integrals), and the
@@ -30,6 +35,8 @@ spec->code, harness area "num"):
 """
 import json
 import os
+import re
+import shutil
 
 from vlib import SPECS
 
@@ -84,6 +91,44 @@ def interp_stages(ctx, thorough, seed):
     groups = [("const, linear, given derivatives, Akima, Fritsch-Butland", ("const", "linear", "pwcubic", "akima", "fb")),
               ("natural, clamped", ("natural", "clamped")), ("not-a-knot", ("notaknot",))]
     return [("interpolation " + n, "num/Interp.tla", "num/Interp_gen.cfg", dict(base, METHODS=S(*m))) for n, m in groups]
+
+
+ALL_INTERP = ("const", "linear", "pwcubic", "akima", "fb", "natural", "clamped", "notaknot")
+IH_SPEC, IH_CFG = "num/InterpHistTrace.tla", "num/InterpHistTrace.cfg"
+
+
+def _ih_validate(ctx, hb, cases, label):
+    """R3 for the fit histories in `cases`: record the answers outside the knots, let TLC judge them."""
+    tr = os.path.join(ctx.work, "interphist-trace-%s.ndjson" % label)
+    summ = ctx.record(hb, "num-interphist", tr, ["cases=" + cases], name="R3 record interpolation fit histories, queries outside the knots (%s)" % label)
+    ok, st = ctx.validate(IH_SPEC, IH_CFG, tr, name="R3 validate interpolation fit histories (%s)" % label)
+    if ok:
+        ctx.traces += summ.get("traces", 0)
+        ctx.cases += summ.get("traces", 0)
+        ctx.nontrivial += summ.get("traces", 0)
+        return True
+    keep = os.path.join(os.path.dirname(os.path.abspath(__file__)), "..", "..", "replays", "C18")
+    os.makedirs(keep, exist_ok=True)
+    dst = os.path.abspath(os.path.join(keep, "interphist-trace-%s-seed%d.ndjson" % (label, ctx.seed)))
+    shutil.copy(tr, dst)
+    m = re.search(r'm \|-> \\?"(\w+)', st.get("detail", ""))
+    names = {"const": "PiecewiseConstant", "linear": "PiecewiseLinear", "pwcubic": "PiecewiseCubic", "akima": "AkimaSpline",
+             "fb": "FritschButland", "natural": "NaturalCubic", "clamped": "ClampedCubic", "notaknot": "NotAKnotCubic"}
+    who = names.get(m.group(1), "?") if m else "?"
+    ctx.violation("num:interp.%s:history:trace-rejected" % who,
+                  "the answer of a predictor outside its knots is not a function of the data of its last Fit and the query point "
+                  "(a refitted object and a fresh object disagree, or a query panicked): " + st.get("detail", "")[:700],
+                  {"trace": dst, "spec": IH_SPEC, "cfg_file": IH_CFG, "cfg": {}})
+    return False
+
+
+def interp_histories(ctx, hb, thorough, seed):
+    def thunk():
+        cases = ctx.gen("num/InterpHist.tla", "num/InterpHist_gen.cfg", subst=dict(METHODS=S(*ALL_INTERP), NDATA=6 if thorough else 2, SEED=seed),
+                        name="R1+R2 gen interpolation fit histories (one object, 2-3 Fit calls, 22 knot histories x 8 types)", timeout=1700)
+        ctx.replay(hb, "num", cases, name="R2 replay interpolation fit histories")
+        _ih_validate(ctx, hb, cases, "all")
+    return thunk
 
 
 def dfun_stages(ctx, thorough, seed):
@@ -147,7 +192,7 @@ def run(ctx):
             cases = ctx.gen(spec, cfg, subst=subst, name="R1+R2 gen " + name, timeout=1700)
             ctx.replay(hb, "num", cases, name="R2 replay " + name)
         return thunk
-    ctx.parallel([one(s) for s in stages], width=4)
+    ctx.parallel([one(s) for s in stages] + [interp_histories(ctx, hb, thorough, seed)], width=4)
 
     ctx.assumptions += [
         "TLC/SANY and the CommunityModules Json module are trusted",
@@ -159,6 +204,9 @@ def run(ctx):
         "quaternion identities: both sides of an identity are evaluated by gonum (the specification supplies the identity, "
         "the exact rotated / squared / inverted arguments and the rational value); the rounding allowance is tolu*2^-52 times "
         "the largest modulus among the leaves and intermediate values of the printed expression",
+        "fit histories: outside the knots the documentation of package interp fixes no value; the state machine of InterpHist.tla only says "
+        "that an answer is a function of the data of the last successful Fit and of the query point, and InterpHistTrace.tla judges the "
+        "recorded bit patterns of refitted and fresh objects by that clause (the harness's recording of calls and answers is trusted)",
         "fmt (package fmt's formatting of float64 and complex128) and strconv.ParseFloat are trusted; the shortest "
         "decimal of a float with a terminating expansion of at most 15 digits is that expansion",
     ]
@@ -166,15 +214,27 @@ def run(ctx):
         rule="one case = one gonum call (or one node/weight table) on operands printed by the specification whose "
              "result was compared with the specification's exact rational value within the specification's rounding "
              "allowance (0 where the spec proves the float computation exact); non-trivial = integrand of degree >= 1 / "
-             "any Gauss-Legendre / Gauss-Hermite case / every quaternion identity / every text case / every contract case that must panic",
+             "any Gauss-Legendre / Gauss-Hermite case / every quaternion identity / every text case / every contract case that must panic; "
+             "fit histories: one case = one history of 2-3 Fit calls on one predictor value with all queries after every good step "
+             "(non-trivial = at least two good steps), one trace = the recorded answers of that history's refitted and fresh objects outside the knots",
         exhaustive=False)
 
 
 def replay(ctx, path):
     os.makedirs(os.path.join(SPECS, "lib"), exist_ok=True)
     d = json.load(open(path))["data"]
+    if "trace" in d:
+        ok, st = ctx.validate(d["spec"], d["cfg_file"], d["trace"], subst=d.get("cfg", {}))
+        print("trace accepted" if ok else "trace rejected: " + st.get("detail", "")[:800])
+        if not ok:
+            print("VIOLATION property=C18 replay=%s" % path)
+        return 0 if ok else 1
     one = os.path.join(ctx.work, "one.ndjson")
     with open(one, "w") as fh:
         fh.write(json.dumps(d["failure"]["case"]) + "\n")
+    if d.get("area") == "num-interphist":
+        # a query outside the knots panicked while a fit history was recorded: record that history alone again
+        _ih_validate(ctx, ctx.build(""), one, "one")
+        return ctx.finish()
     ctx.replay(ctx.build(""), d["area"], one, d["args"], confirm=False, name="replay")
     return ctx.finish()
